@@ -576,6 +576,36 @@ func TestC17(t *testing.T) {
 		} else if err == nil {
 			rep.Violation("dialect=user what=accepts:"+class, "a dialect with "+class+" was accepted by Initialize", class)
 		}
+		// a second try on the same objects (a retry loop; nothing has changed): refused again, at initialization
+		if class != "duplicate-id" {
+			mrw := &message.ReadWriter{Message: inject}
+			for try := 1; try <= 3; try++ {
+				var ierr error
+				var pp interface{}
+				func() {
+					defer func() { pp = recover() }()
+					ierr = mrw.Initialize()
+				}()
+				rep.Count("message_codecs_of_malformed_structs_initialized_repeatedly", 1)
+				if pp != nil {
+					rep.Violation("dialect=user what=accepts:"+class, fmt.Sprintf("message.ReadWriter.Initialize panicked on try %d: %v", try, pp), class)
+					break
+				}
+				if ierr == nil {
+					rep.Violation("dialect=user what=accepts:"+class+":retry", fmt.Sprintf("message.ReadWriter.Initialize accepted a malformed struct (%s) on try %d on the same object", class, try), class)
+					break
+				}
+			}
+		}
+		if k%4 == 1 {
+			drw := &dialect.ReadWriter{Dialect: &dialect.Dialect{Version: 3, Messages: withBad}}
+			for try := 1; try <= 2; try++ {
+				if err, p := safeInit(drw); err == nil || p != nil {
+					rep.Violation("dialect=user what=accepts:"+class+":retry", fmt.Sprintf("try %d on the same dialect.ReadWriter: %v %v", try, err, p), class)
+					break
+				}
+			}
+		}
 		// the same defect arriving through re-initialisation of a Dialect value that was valid before
 		if k%3 == 0 {
 			d := &dialect.Dialect{Version: 3, Messages: append([]message.Message{}, msgs...)}
